@@ -148,6 +148,6 @@ PROPERTY = {
             'Dispatch::new with generated static answers, drops, rebuild_interest_cache, reload-style mutate-then-rebuild; some threads with a default collector) under a generated grant schedule, plus every schedule with <=2 preemptions (<=3 in thorough) of '
             'the core two-thread scenario (first hit vs a new collector that wants the callsite); judged: event log is a run of the transition system with the required lock discipline, no deadlock/panic/wrong delivery, '
             'quiescent deliveries = filter verdicts. non-trivial = a writer and a first-hit registration overlapped',
-    'trusted_base': ['hand-written transition system Core/RegRace.lean', 'translator unit RegistryLocks', 'hooks 6b66a7f (yield points)', 'executor h_race (condvar scheduler, 40 ms blocked-thread detection)'],
+    'trusted_base': ['hand-written transition system Core/RegRace.lean', 'translator unit RegistryLocks', 'hooks in /repo (yield points, cfg tokio_rs_tracing_verif)', 'executor h_race (condvar scheduler, 40 ms blocked-thread detection)'],
     'assumptions': ['sequential consistency at yield-point granularity'],
 }
